@@ -195,17 +195,15 @@ theorem slice_prefix (n : Int) (h0 : 0 ≤ n) (hn : n ≤ (firstBytes.length : I
   have : ¬ ((0 : Int) < 0 ∨ n < 0 ∨ (firstBytes.length : Int) < n) := by omega
   simp [this, h0, hn]
 
-theorem findLoop (hfits : ∀ elt ∈ (ciphers : List (ListElem Code.CipherEntry)),
-      0 ≤ saltSize elt.Value.CryptoKey + 2 + tagSize elt.Value.CryptoKey ∧
-      saltSize elt.Value.CryptoKey + 2 + tagSize elt.Value.CryptoKey ≤ (firstBytes.length : Int)) :
+/-- the trial loop for ANY body that, on an element, stops with it when its key opens the header and goes on otherwise -/
+theorem findLoop (ciphers : List (ListElem Code.CipherEntry))
+    (body : Int × ListElem Code.CipherEntry → Option (Option Code.CipherEntry × Option (ListElem Code.CipherEntry)) × Unit →
+      Option (ForInStep (Option (Option Code.CipherEntry × Option (ListElem Code.CipherEntry)) × Unit)))
+    (hbody : ∀ (i : Int) (elt : ListElem Code.CipherEntry), elt ∈ ciphers → body (i, elt) (none, ()) =
+      if opens saltSize tagSize unpack firstBytes elt.Value.CryptoKey then some (ForInStep.done (some (some elt.Value, some elt), ()))
+      else some (ForInStep.yield (none, ()))) :
     ∀ (n : Nat),
-    forIn ((ciphers.zipIdx n).map (fun p => (((p.2 : Nat) : Int), p.1)))
-        ((none, ()) : Option (Option Code.CipherEntry × Option (ListElem Code.CipherEntry)) × Unit)
-        (fun (x : Int × ListElem Code.CipherEntry) _ => do
-          let a ← GoRT.slice (List.replicate 2 (0 : UInt8)) 0 0
-          let b ← GoRT.slice firstBytes 0 (saltSize x.2.Value.CryptoKey + 2 + tagSize x.2.Value.CryptoKey)
-          if decide ((unpack a b x.2.Value.CryptoKey).2 ≠ none) = true then pure (ForInStep.yield (none, ()))
-          else pure (ForInStep.done (some (some x.2.Value, some x.2), ())))
+    forIn ((ciphers.zipIdx n).map (fun p => (((p.2 : Nat) : Int), p.1))) (none, ()) body
       = some (match ciphers.find? (fun elt => opens saltSize tagSize unpack firstBytes elt.Value.CryptoKey) with
               | some elt => (some (some elt.Value, some elt), ())
               | none => (none, ())) := by
@@ -213,17 +211,11 @@ theorem findLoop (hfits : ∀ elt ∈ (ciphers : List (ListElem Code.CipherEntry
   | nil => intro n; rfl
   | cons e rest ih =>
     intro n
-    obtain ⟨h0, hn⟩ := hfits e List.mem_cons_self
-    have hs0 : GoRT.slice (List.replicate 2 (0 : UInt8)) 0 0 = some [] := by simp [GoRT.slice]
-    simp only [List.zipIdx_cons, List.map_cons, List.forIn_cons, hs0, slice_prefix firstBytes _ h0 hn,
-      Option.bind_eq_bind, Option.bind_some, List.find?_cons, opens]
-    cases hu : (unpack [] (firstBytes.take (saltSize e.Value.CryptoKey + 2 + tagSize e.Value.CryptoKey).toNat) e.Value.CryptoKey).2 with
-    | none => simp [hu]
-    | some err =>
-      simp only [hu, ne_eq, reduceCtorEq, not_false_eq_true, decide_true, if_true, pure, Option.bind_some, Option.isNone_some]
-      have := ih (fun elt h => hfits elt (List.mem_cons_of_mem _ h)) (n + 1)
-      have hs1 : GoRT.slice ([0, 0] : List UInt8) 0 0 = some [] := by simp [GoRT.slice]
-      simpa [opens, hs1] using this
+    simp only [List.zipIdx_cons, List.map_cons, List.forIn_cons, hbody _ e List.mem_cons_self, List.find?_cons]
+    cases ho : opens saltSize tagSize unpack firstBytes e.Value.CryptoKey
+    · simp only [Bool.false_eq_true, if_false, Option.bind_eq_bind, Option.bind_some]
+      exact ih (fun i elt h => hbody i elt (List.mem_cons_of_mem _ h)) (n + 1)
+    · simp
 
 /-- **findEntry**: as long as the 50 bytes read for the key search cover salt+2+tag of every key tried (the generated
     cipher table and `bytesForKeyFinding` say so), the translated loop never panics and returns the FIRST element of the
@@ -236,10 +228,21 @@ theorem findEntry_tie (ciphers : List (ListElem Code.CipherEntry)) (l : Opaque "
             | some elt => (some elt.Value, some elt)
             | none => (none, none)) := by
   unfold Code.findEntry
-  have h := findLoop saltSize tagSize unpack firstBytes hfits 0
-  simp only [GoRT.enum, Option.bind_eq_bind] at h ⊢
-  erw [h]
-  cases ciphers.find? (fun elt => opens saltSize tagSize unpack firstBytes elt.Value.CryptoKey) <;> rfl
+  simp only [GoRT.enum, Option.bind_eq_bind]
+  rw [findLoop saltSize tagSize unpack firstBytes ciphers _ ?_ 0]
+  · cases ciphers.find? (fun elt => opens saltSize tagSize unpack firstBytes elt.Value.CryptoKey) <;> rfl
+  · intro i elt helt
+    obtain ⟨h0, hn⟩ := hfits elt helt
+    have hs0 : GoRT.slice (List.replicate 2 (0 : UInt8)) 0 0 = some [] := by simp [GoRT.slice]
+    have hs1 : GoRT.slice ([0, 0] : List UInt8) 0 0 = some [] := by simp [GoRT.slice]
+    simp only [hs0, hs1, slice_prefix firstBytes _ h0 hn, Option.bind_some, opens, pure]
+    by_cases hnone : (unpack [] (firstBytes.take (saltSize elt.Value.CryptoKey + 2 + tagSize elt.Value.CryptoKey).toNat) elt.Value.CryptoKey).2 = none
+    · simp [hnone]
+    · have : (unpack [] (firstBytes.take (saltSize elt.Value.CryptoKey + 2 + tagSize elt.Value.CryptoKey).toNat) elt.Value.CryptoKey).2.isNone = false := by
+        cases h : (unpack [] (firstBytes.take (saltSize elt.Value.CryptoKey + 2 + tagSize elt.Value.CryptoKey).toNat) elt.Value.CryptoKey).2 with
+        | none => exact absurd h hnone
+        | some _ => rfl
+      simp [hnone, this]
 end
 
 /-- the element found, seen through the abstraction, is the model's `findEntry` over the abstracted snapshot
